@@ -496,6 +496,9 @@ def run(chk):
             'extraction: ExtrOcamlBasic only, no Extract Constant/Inductive of our own',
             'ocaml/driver_c08.ml (parse + print), tools/gen_c08_decls.py (generator, C emission of the probes)',
             'gcc 12 as the executable witness of the psABI (layout and calling convention)',
+            'harness/c08_spy.S + c08_spy.h (register spy), c2m -S text as the observable of c2mir classification',
+            'modelled, not verified: c2mir parser/type checker building the type graph, member access code generation '
+            '(exercised by the probes), MIR handling of BLK arguments (exercised by the passing run; property C05)',
         ]
         corpus = load_corpus()
         bad = {}
@@ -528,7 +531,7 @@ def run(chk):
                            'into a zeroed object) are compared with the extracted Coq models (c2mir model vs c2m, SysV model vs gcc) '
                            'and with each other; non-trivial = at least 4 AST nodes; distinct by declaration text.  Classification: '
                            'how gcc passes/returns each small aggregate is read from the registers by an assembly spy (harness/c08_spy.S), '
-                           'how c2m does from the MIR signatures of c2m -S (with 7 different register-exhaustion prefixes), both compared '
+                           'how c2m does from the MIR signatures of c2m -S (12 register/stack prefixes, each followed by two one-register structs), both compared '
                            'with the extracted c2mir and SysV classification models.  Passing: every small aggregate is passed and '
                            'returned by value in all four caller/callee combinations of c2m code (-ei and -eg) and a gcc-compiled shared '
                            'library, after 0..9 scalar arguments (registers exhausted, stack words before it) and followed by two one-register '
